@@ -1,6 +1,7 @@
 /- Driver.Topo — parsing of topology dump blocks (harness/dump.h) and the `topo` engine (C01 oracle). -/
 import Hw.Topo.WF
 import Hw.Topo.InsertWF
+import Hw.Topo.RenderOf
 import Driver.Util
 namespace Driver.TopoEng
 open Hw.Topo Driver
@@ -117,7 +118,10 @@ def step (p : Partial) (line : String) : Partial × String :=
       let ri := match d.objs[d.root.toNat]? with
         | some r => (match Ins.reinsertAgrees (Ins.treeC d d.fuel r) with | some false => ["reinsertion-differs"] | _ => [])
         | none => []
-      let v := v ++ ri
+      -- renderer oracle: the loaded topology is a fixed point of the renderer (links, levels, cousins, type depths recomputed
+      -- from the bare tree must reproduce hwloc's connect code), and its tree is typed with a normal root; by
+      -- C01_links_of_render the 18 link / level clauses then FOLLOW (they are not merely evaluated)
+      let v := v ++ ri ++ Hw.Topo.Restrict.renderCheck d
       (p', if v.isEmpty then "WF ok" else "WF FAIL " ++ ",".intercalate (v.take 6))
 
 end Driver.TopoEng
